@@ -240,7 +240,7 @@ func C15(r *vf.Run) {
 				// a program longer than 65,535 bytes: one big table early on, code and data after it
 				calls, base, _ = genHistory(g, histOpts{maxCalls: 40, listing: true, dataBlocks: true})
 				at := 0
-				for at < len(calls) && (calls[at].Op == "setbase" || calls[at].Op == "assumesep" || calls[at].Op == "comment") {
+				for at < len(calls) && (calls[at].Op == "setbase" || calls[at].Op == "assumesep" || calls[at].Op == "comment" || (calls[at].Op == "label" && at < 3)) {
 					at++
 				}
 				for i := range calls {
